@@ -140,6 +140,37 @@ theorem convertToZoneG_before1970_back (trunc : α → Int) (htr : TruncZ trunc)
   have e : (3600 * (z0 - z) : Int) = -(3600 * (z - z0)) := by ring
   simp only [convertToZoneG, e, h3, Option.map_some]
 
+/-- B8a: `addSec(a)` / `addMin(a)` / `addHour(a)` / `addDay(a)` for ANY scalar amount (fractional included) and any stamp, when
+the instant asked for is 1970 or before: the stamp of B1/B2 (ill formed from one millisecond before 1970 on, B4), whose
+`toAbsTime()` is the instant asked for to within one millisecond, rounded toward zero. -/
+theorem addG_before1970_spec (trunc : α → Int) (htn : TruncNeg trunc) (t : StampZ) (a c : α) (h : toAbsG t + a * c ≤ 0) :
+    readUnixG trunc (toAbsG t + a * c) = some (readUnixNegSpec trunc (toAbsG t + a * c))
+    ∧ toAbsG t + a * c ≤ toAbsG (readUnixNegSpec trunc (toAbsG t + a * c))
+    ∧ toAbsG (readUnixNegSpec trunc (toAbsG t + a * c)) < toAbsG t + a * c + 1 / 1000 :=
+  ⟨readUnixG_before1970 trunc htn _ h, readUnixG_before1970_instant trunc htn _ h⟩
+
+theorem addSecG_before1970_spec (trunc : α → Int) (htn : TruncNeg trunc) (t : StampZ) (a : α) (h : toAbsG t + a ≤ 0) :
+    ∃ r, addSecG trunc t a = some r ∧ r = readUnixNegSpec trunc (toAbsG t + a)
+      ∧ toAbsG t + a ≤ toAbsG r ∧ toAbsG r < toAbsG t + a + 1 / 1000 := by
+  have := addG_before1970_spec trunc htn t a 1 (by simpa using h)
+  simp only [mul_one] at this
+  exact ⟨_, this.1, rfl, this.2⟩
+
+theorem addMinHourDayG_before1970_spec (trunc : α → Int) (htn : TruncNeg trunc) (t : StampZ) (a : α) :
+    (toAbsG t + a * 60 ≤ 0 → ∃ r, addMinG trunc t a = some r
+        ∧ toAbsG t + a * 60 ≤ toAbsG r ∧ toAbsG r < toAbsG t + a * 60 + 1 / 1000)
+    ∧ (toAbsG t + a * 3600 ≤ 0 → ∃ r, addHourG trunc t a = some r
+        ∧ toAbsG t + a * 3600 ≤ toAbsG r ∧ toAbsG r < toAbsG t + a * 3600 + 1 / 1000)
+    ∧ (toAbsG t + a * 86400 ≤ 0 → ∃ r, addDayG trunc t a = some r
+        ∧ toAbsG t + a * 86400 ≤ toAbsG r ∧ toAbsG r < toAbsG t + a * 86400 + 1 / 1000) := by
+  refine ⟨fun h => ?_, fun h => ?_, fun h => ?_⟩
+  · have := addG_before1970_spec trunc htn t a 60 h
+    exact ⟨_, by simpa [addMinG] using this.1, this.2⟩
+  · have := addG_before1970_spec trunc htn t a 3600 h
+    exact ⟨_, by simpa [addHourG] using this.1, this.2⟩
+  · have := addG_before1970_spec trunc htn t a 86400 h
+    exact ⟨_, by simpa [addDayG] using this.1, this.2⟩
+
 /-- B9: **`addSec(k)` for a whole `k`, on both sides of 1970, with no domain hypothesis**: from a well-formed stamp the call
 returns `shiftMsZ t (1000 k)` — the integer model's stamp of `toAbsMs + 1000 k` when that is not negative (T12), the negated
 decomposition of `−(toAbsMs + 1000 k)` when it is. -/
